@@ -2,10 +2,11 @@ import Chihaya.Driver.Proto
 import Chihaya.Driver.DBencode
 import Chihaya.Driver.DVarInterval
 import Chihaya.Driver.DConfig
+import Chihaya.Driver.DApproval
 open Proto
 
 def dispatch (l : Line) : String :=
-  let hs : List (Line → Option (Except String String)) := [DBencode.handle, DVarInterval.handle', DConfig.handle]
+  let hs : List (Line → Option (Except String String)) := [DBencode.handle, DVarInterval.handle', DConfig.handle, DApproval.handle]
   let r : Option (Except String String) := hs.findSome? (fun h => h l)
   match r with
   | some (Except.ok s) => s
